@@ -33,6 +33,7 @@ func checkC07(c *Ctx) {
 		c07Collect(c, p, m)
 		c07Sort(c, p, m)
 		c10Frames(c, p, m)
+		contextKeysRegistered(c, p)
 	}
 	c.Floor["R07.2"] = 12
 	c.Floor["R07.3"] = 5
